@@ -95,6 +95,11 @@ def provn_values(ctx):
     _provn_check(ctx, d)
 
 
+def provn_twin_bundles(ctx):
+    stub_logging_str(ctx)
+    _provn_check(ctx, DS.twin_bundles_doc(ctx))
+
+
 def provn_structure(ctx):
     stub_logging_str(ctx)
     P = ctx.params
@@ -133,6 +138,10 @@ OBLIGATIONS = [
                assumptions=["string = any sequence of Unicode scalar values (no lone surrogates)"],
                functions=["prov.model._ensure_multiline_string_triple_quoted", "prov.model.encoding_provn_value", "prov.model.Literal.provn_representation"],
                budget_s=(120, 600), per_path_s=(60, 300)),
+    Obligation(name="provn_twin_bundles", fn=provn_twin_bundles, shards=[{}],
+               desc="sibling bundles binding one prefix to different URIs (+ empty bundle): PROV-N parses and denotes the same document",
+               bounds="2-3 bundles; URIs |u|<=3", assumptions=_ASSUME, functions=["prov.model.ProvBundle.get_provn"], shims=["PROV-N text is pinned before the independent reader runs"],
+               best_verdict="PATH_COMPLETE", budget_s=(150, 600), per_path_s=(30, 60)),
     Obligation(name="provn_values", fn=provn_values, shards=_value_shards,
                desc="get_provn() of one entity with one attribute (6 name classes x 15 value kinds, 5 namespace modes, document/bundle) parses under the W3C grammar "
                     "with an independent recursive-descent parser and denotes the same strict content",
